@@ -47,6 +47,8 @@ ASSUMPTIONS = [
 FAULT_KINDS = ["same_name_other_template", "snapped_coordinates", "repeat_vector", "reused_receiver",
                "slack_pairs>=2", "second_objective_object",
                "other_objective_configuration",
+               "failed_decode_between_valid_ones", "vector_length_varies",
+               "seed_derivation_failed_once",
                "reevaluate_after_other_instance"]
 PROBES = ["slack_cut_refused_for_area", "direction_switched_after_wrap",
           "equal_items_merged", "neighbour_item_tried", "witness:documented",
@@ -186,10 +188,34 @@ def _generate(rng: random.Random, batch: dict) -> dict:
     for _ in range(n_ops):
         r = rng.random()
         if n_dec == 0 or r < (0.5 if with_h else 0.85):
-            x, how = gen_vec(rng, d, earlier)
-            earlier.append(x)
-            ops.append({"op": "decode", "x": [fhex(v) for v in x],
-                        "how": how, "reuse": rng.random() < 0.5})
+            if n_dec > 0 and rng.random() < 0.06:
+                # a call that fails half-way (vector too short / NaN inside)
+                # between valid ones on the same decoder
+                x, _ = gen_vec(rng, d, earlier)
+                ops.append({"op": "decode_bad", "x": [fhex(v) for v in x],
+                            "kind": rng.choice(["short", "nan"])})
+                continue
+            ke = 0
+            rr = rng.random()
+            if rr < 0.05:
+                x, how = [0.0] * d, "zeros"
+            elif rr < 0.10 and earlier:
+                # an earlier vector behind two more zero entries: one more
+                # slack pair than the scenario's other vectors
+                x, how, ke = [0.0, 0.0] + list(rng.choice(earlier))[:d], \
+                    "zero_prefixed", 1
+            elif rr < 0.14:
+                x, how = gen_vec(rng, d + 2, earlier)
+                ke = 1
+            else:
+                x, how = gen_vec(rng, d, earlier)
+            if ke == 0:
+                earlier.append(x)
+            op = {"op": "decode", "x": [fhex(v) for v in x],
+                  "how": how, "reuse": rng.random() < 0.5}
+            if ke:
+                op["k_extra"] = ke
+            ops.append(op)
             n_dec += 1
         else:
             on = "template" if rng.random() < 0.3 \
@@ -198,8 +224,10 @@ def _generate(rng: random.Random, batch: dict) -> dict:
                 kind = rng.choice(["errors", "hardness", "hardness", "both"])
             else:
                 kind = "errors"
-            ops.append({"op": kind, "on": on,
-                        "obj": rng.choice([0, 0, 1, 2])})
+            op = {"op": kind, "on": on, "obj": rng.choice([0, 0, 1, 2])}
+            if kind != "errors" and rng.random() < 0.08:
+                op["seed_fault"] = True    # seed derivation fails once
+            ops.append(op)
     return {"template": template, "k": k, "hardness": hard, "ops": ops}
 
 
@@ -426,8 +454,26 @@ def _execute_one(doc: dict, tname) -> dict:
     bin_area = W * H
     for idx, op in enumerate(doc["ops"]):
         kind = op["op"]
-        if kind == "decode":
+        if kind == "decode_bad":
             xs = _vec(op["x"], d)
+            if op["kind"] == "short":
+                xs = xs[:max(0, d - 3)]
+            elif xs:
+                xs[len(xs) // 2] = float("nan")
+            try:
+                decoder.decode(np.array(xs, dtype=float), [])
+                outcome = "returned"
+            except Exception as exc:  # noqa: BLE001
+                outcome = type(exc).__name__
+            # not an admissible vector: nothing to judge about this call -
+            # but the decoder object goes on being used
+            core.bump(res["faults"], "failed_decode_between_valid_ones")
+            res["events"].append(["decode_bad", op["kind"], outcome])
+            continue
+        if kind == "decode":
+            xs = _vec(op["x"], d + 2 * int(op.get("k_extra", 0)))
+            if op.get("k_extra"):
+                core.bump(res["faults"], "vector_length_varies")
             x = np.array(xs, dtype=float)
             xkey = core.digest([fhex(v) for v in xs])[:16]
             if op.get("how") == "snapped":
@@ -550,6 +596,28 @@ def _execute_one(doc: dict, tname) -> dict:
             slot = int(op.get("obj", 0))
             obj = get_obj(kind, slot)
             cs = inst.to_compact_str()
+            if op.get("seed_fault") and kind != "errors":
+                # the derivation of the inner runs' seeds fails once; the
+                # call fails with it, the repeated call must be right
+                import moptipyapps.binpacking2d.instgen.hardness as hmod
+                real = hmod.rand_seeds_from_str
+                fired = {"n": 0}
+
+                def failing(*a, **kw):
+                    fired["n"] += 1
+                    raise OSError("simulated: seed derivation failed")
+                hmod.rand_seeds_from_str = failing
+                try:
+                    obj.evaluate(inst)
+                except OSError:
+                    pass
+                except Exception:  # noqa: BLE001
+                    pass
+                finally:
+                    hmod.rand_seeds_from_str = real
+                if fired["n"]:
+                    core.bump(res["faults"], "seed_derivation_failed_once")
+                res["events"].append(["seed_fault", fired["n"]])
             try:
                 v = obj.evaluate(inst if idx % 2 == 0 else [inst])
             except Exception as exc:  # noqa: BLE001
